@@ -10,7 +10,7 @@ RULE_F = ("edge/vertex lists (0-18 vertices, 0-65 edges, hub vertices so that de
           "Graph::from_files or DefaultGraphBuilder::build (the call CompassApp makes); every accessor printed: sizes, "
           "get_edge / get_vertex past the end, out_edges / in_edges, adj / rev through iter() (len / get asserted "
           "consistent), src / dst / incident_vertex, edge_triplet, incident_edges, incident_triplet_ids / _attributes in "
-          "both directions, adj-vs-rev same-edge-set verdict. I = implementation, M = loader model on the C11 container "
+          "both directions, adj-vs-rev same-edge-set verdict. The witnesses in corpus/C15 run first. I = implementation, M = loader model on the C11 container "
           "model, S = specification read off the rows by find / filter (printed only inside the hypotheses LD.wf, else "
           "'unspecified'). Deterministic families first: star degrees 0..9 x formats, all format x newline combinations, "
           "k parallel edges, k self loops, header-only and zero-byte files, explicit counts, end points out of range, "
@@ -55,14 +55,15 @@ def run(chk):
     chk.proofs(extra_targets=["Model/LoaderRun.vo"])
     binp = vf.build_harness("c15")
     quick = chk.tier == "quick"
+    corpus = ["--corpus", os.path.join(vf.ROOT, "corpus", "C15")]   # witnesses, replayed first in each stream
     if _is(chk, "files"):
-        r = vf.run_stream(binp, "files", 420 if quick else 6000, chk.seed, os.path.join(chk.outdir, "files"), replay=chk.replay)
+        r = vf.run_stream(binp, "files", 420 if quick else 6000, chk.seed, os.path.join(chk.outdir, "files"), extra=corpus, replay=chk.replay)
         chk.add_stream(r, RULE_F)
-        vf.compare(chk, r, classify=classify, binpath=binp)
+        vf.compare(chk, r, classify=classify, binpath=binp, extra=corpus)
     if _is(chk, "tables"):
-        r2 = vf.run_stream(binp, "tables", 300 if quick else 3000, chk.seed, os.path.join(chk.outdir, "tables"), replay=chk.replay)
+        r2 = vf.run_stream(binp, "tables", 300 if quick else 3000, chk.seed, os.path.join(chk.outdir, "tables"), extra=corpus, replay=chk.replay)
         chk.add_stream(r2, RULE_T)
-        vf.compare(chk, r2, classify=classify, binpath=binp)
+        vf.compare(chk, r2, classify=classify, binpath=binp, extra=corpus)
     if chk.broken_obligation:
         chk.violation("broken-obligation", "proofs", {"obligations": chk.broken_obligation}, "does not check", "Qed",
                       found=False, key="obligation")
